@@ -67,7 +67,8 @@ func c17Make(goType string, value bool, pub, upd time.Time, id string) ap.Item {
 func TestC17(t *testing.T) {
 	r := ev.Open(t, "C17")
 	defer r.Close(t)
-	r.Rule("lattice: all ordered triples over 36 objects (published x updated from {zero, T, T in another zone, T+1h, T-1h, T+1h in another zone}) + nil + typed nil; " +
+	r.Rule("lattice: all ordered triples over 36 objects (published x updated from {zero, T, T in another zone, T+1h, T-1h, T+1h in another zone}) + nil + typed nil, under three identity policies " +
+		"(pairwise distinct ids over all Go types; one id and type for all = versions of one object; no ids); " +
 		"laws: irreflexive, asymmetric, transitive, transitive incomparability, agreement with the reference comparator (later of published/updated, nil before any object); " +
 		"random: objects of all 13 object-like types in pointer and value forms, random instants, plus sorting a permutation with sort.SliceStable vs the reference order. " +
 		"non-trivial triple = >= 2 distinct keys and >= 1 object whose updated is later than published; distinct by the triple")
@@ -80,86 +81,108 @@ func TestC17(t *testing.T) {
 	}{
 		{"zero", time.Time{}}, {"T", t0}, {"T@+5", t0.In(zone)}, {"T+1h", t0.Add(time.Hour)}, {"T-1h", t0.Add(-time.Hour)}, {"T+1h@+5", t0.Add(time.Hour).In(zone)},
 	}
-	var items []c17Item
-	for i, p := range inst {
-		for j, u := range inst {
-			gt := c17Types[(i*len(inst)+j)%len(c17Types)]
-			items = append(items, c17Item{fmt.Sprintf("%s{pub=%s,upd=%s}", gt, p.n, u.n), c17Make(gt, false, p.t, u.t, fmt.Sprintf("https://example.com/o/%d-%d", i, j)), false, c17Key(p.t, u.t)})
-		}
-	}
-	items = append(items, c17Item{"nil", nil, true, time.Time{}}, c17Item{"(*Object)(nil)", (*ap.Object)(nil), true, time.Time{}})
-
-	if r.WantLayer("lattice", true) {
-		n := len(items)
-		// pair table first (also checks agreement with the reference)
-		less := make([][]bool, n)
-		bad := false
-		for i := range items {
-			less[i] = make([]bool, n)
-			for j := range items {
-				cell := items[i].name + " < " + items[j].name
-				res, key, detail := c17Call(items[i], items[j])
-				if key != "" {
-					r.Report("lattice", cell, key, detail, cell)
-					bad = true
-					continue
+	// identity policies: distinct ids over all Go types; one id and one type for all (versions of one object, so that
+	// identity-based equality holds between items with different instants); no ids at all
+	total, totalDone, allGood := 0, 0, true
+	for _, policy := range []string{"distinct", "same-id", "no-id"} {
+		var items []c17Item
+		for i, p := range inst {
+			for j, u := range inst {
+				gt := c17Types[(i*len(inst)+j)%len(c17Types)]
+				id := fmt.Sprintf("https://example.com/o/%d-%d", i, j)
+				pre := ""
+				switch policy {
+				case "same-id":
+					gt, id, pre = "Object", "https://example.com/o/same", "same-id "
+				case "no-id":
+					gt, id, pre = "Object", "", "no-id "
 				}
-				less[i][j] = res
-				if want := c17Less(items[i], items[j]); res != want {
-					cls := "objects"
-					if items[i].isNl || items[j].isNl {
-						cls = "nil"
-					}
-					r.Report("lattice", cell, "order model "+cls, fmt.Sprintf("ItemOrderTimestamp(%s, %s) = %v, reference %v", items[i].name, items[j].name, res, want), cell)
-				}
+				items = append(items, c17Item{fmt.Sprintf("%s%s{pub=%s,upd=%s}", pre, gt, p.n, u.n), c17Make(gt, false, p.t, u.t, id), false, c17Key(p.t, u.t)})
 			}
 		}
-		triples := 0
-		if !bad {
+		items = append(items, c17Item{"nil", nil, true, time.Time{}}, c17Item{"(*Object)(nil)", (*ap.Object)(nil), true, time.Time{}})
+
+		if r.WantLayer("lattice", true) {
+			n := len(items)
+			// pair table first (also checks agreement with the reference)
+			less := make([][]bool, n)
+			bad := false
 			for i := range items {
-				if less[i][i] {
-					r.Report("lattice", items[i].name, "order irreflexive", "less("+items[i].name+", itself) is true", items[i].name)
-				}
+				less[i] = make([]bool, n)
 				for j := range items {
-					if less[i][j] && less[j][i] {
-						r.Report("lattice", items[i].name+" "+items[j].name, "order asymmetric", fmt.Sprintf("both less(%s,%s) and the converse", items[i].name, items[j].name), nil)
+					cell := items[i].name + " < " + items[j].name
+					res, key, detail := c17Call(items[i], items[j])
+					if key != "" {
+						r.Report("lattice", cell, key, detail, cell)
+						bad = true
+						continue
 					}
-					for k := range items {
-						triples++
-						cell := items[i].name + " " + items[j].name + " " + items[k].name
-						if less[i][j] && less[j][k] && !less[i][k] {
-							r.Report("lattice", cell, "order transitive", "a<b, b<c but not a<c for "+cell, cell)
+					less[i][j] = res
+					if want := c17Less(items[i], items[j]); res != want {
+						cls := "objects"
+						if items[i].isNl || items[j].isNl {
+							cls = "nil"
 						}
-						incomp := func(x, y int) bool { return !less[x][y] && !less[y][x] }
-						if incomp(i, j) && incomp(j, k) && !incomp(i, k) {
-							r.Report("lattice", cell, "order incomparability-transitive", "a~b, b~c but not a~c for "+cell, cell)
+						if policy != "distinct" && cls == "objects" {
+							cls = "objects " + policy
 						}
-						keys := map[int64]bool{}
-						upd := false
-						for _, x := range []int{i, j, k} {
-							if !items[x].isNl {
-								keys[items[x].key.UnixNano()] = true
-								sv, _ := vocab.StructOf(items[x].it)
-								if sv.FieldByName("Updated").Interface().(time.Time).After(sv.FieldByName("Published").Interface().(time.Time)) {
-									upd = true
+						r.Report("lattice", cell, "order model "+cls, fmt.Sprintf("ItemOrderTimestamp(%s, %s) = %v, reference %v", items[i].name, items[j].name, res, want), cell)
+					}
+				}
+			}
+			triples := 0
+			if !bad {
+				for i := range items {
+					if less[i][i] {
+						r.Report("lattice", items[i].name, "order irreflexive", "less("+items[i].name+", itself) is true", items[i].name)
+					}
+					for j := range items {
+						if less[i][j] && less[j][i] {
+							r.Report("lattice", items[i].name+" "+items[j].name, "order asymmetric", fmt.Sprintf("both less(%s,%s) and the converse", items[i].name, items[j].name), nil)
+						}
+						for k := range items {
+							triples++
+							cell := items[i].name + " " + items[j].name + " " + items[k].name
+							if less[i][j] && less[j][k] && !less[i][k] {
+								r.Report("lattice", cell, "order transitive", "a<b, b<c but not a<c for "+cell, cell)
+							}
+							incomp := func(x, y int) bool { return !less[x][y] && !less[y][x] }
+							if incomp(i, j) && incomp(j, k) && !incomp(i, k) {
+								r.Report("lattice", cell, "order incomparability-transitive", "a~b, b~c but not a~c for "+cell, cell)
+							}
+							keys := map[int64]bool{}
+							upd := false
+							for _, x := range []int{i, j, k} {
+								if !items[x].isNl {
+									keys[items[x].key.UnixNano()] = true
+									sv, _ := vocab.StructOf(items[x].it)
+									if sv.FieldByName("Updated").Interface().(time.Time).After(sv.FieldByName("Published").Interface().(time.Time)) {
+										upd = true
+									}
 								}
 							}
-						}
-						r.Case(cell, len(keys) >= 2 && upd, "lattice triples")
-						if triples%9001 == 0 {
-							r.Sample(cell, map[string]interface{}{"layer": "lattice", "a": items[i].name, "b": items[j].name, "c": items[k].name,
-								"a<b": less[i][j], "b<c": less[j][k], "a<c": less[i][k]})
+							r.Case(cell, len(keys) >= 2 && upd, "lattice triples")
+							if triples%9001 == 0 {
+								r.Sample(cell, map[string]interface{}{"layer": "lattice", "a": items[i].name, "b": items[j].name, "c": items[k].name,
+									"a<b": less[i][j], "b<c": less[j][k], "a<c": less[i][k]})
+							}
 						}
 					}
 				}
 			}
+			total += n * n * n
+			totalDone += triples
+			allGood = allGood && !bad
 		}
-		r.Cells(n*n*n, triples)
-		r.Exhaustive("lattice", !bad)
+	}
+	if r.WantLayer("lattice", true) {
+		r.Cells(total, totalDone)
+		r.Exhaustive("lattice", allGood)
 	}
 
 	r.Rapid(t, "random", r.Pick(10000, 50000), func(t *rapid.T) {
 		n := rapid.IntRange(2, 7).Draw(t, "n")
+		idPolicy := rapid.SampledFrom([]string{"distinct", "distinct", "same-id", "no-id"}).Draw(t, "ids")
 		var its []c17Item
 		for i := 0; i < n; i++ {
 			switch rapid.IntRange(0, 9).Draw(t, "kind") {
@@ -183,8 +206,14 @@ func TestC17(t *testing.T) {
 				}
 				gt := rapid.SampledFrom(c17Types).Draw(t, "gotype")
 				val := rapid.IntRange(0, 3).Draw(t, "valueform") == 0
-				its = append(its, c17Item{fmt.Sprintf("%s{pub=%s,upd=%s,val=%v}", gt, pub.Format(time.RFC3339Nano), upd.Format(time.RFC3339Nano), val),
-					c17Make(gt, val, pub, upd, fmt.Sprintf("https://example.com/r/%d", i)), false, c17Key(pub, upd)})
+				id := fmt.Sprintf("https://example.com/r/%d", i)
+				if idPolicy != "distinct" {
+					// versions of one object / anonymous objects: one Go type, one (or no) id
+					gt = "Object"
+					id = map[string]string{"same-id": "https://example.com/r/same", "no-id": ""}[idPolicy]
+				}
+				its = append(its, c17Item{fmt.Sprintf("%s %s{pub=%s,upd=%s,val=%v}", idPolicy, gt, pub.Format(time.RFC3339Nano), upd.Format(time.RFC3339Nano), val),
+					c17Make(gt, val, pub, upd, id), false, c17Key(pub, upd)})
 			}
 		}
 		var ds []keyed
@@ -237,7 +266,7 @@ func TestC17(t *testing.T) {
 				keys[a.key.UnixNano()] = true
 			}
 		}
-		r.Case(names, len(keys) >= 2, fmt.Sprintf("random n=%d", n))
+		r.Case(names, len(keys) >= 2, fmt.Sprintf("random n=%d", n), "random ids="+idPolicy)
 		r.Sample(names, map[string]interface{}{"layer": "random", "items": names})
 		failUnknown(r, t, "random", ds, map[string]interface{}{"items": names})
 	})
